@@ -921,6 +921,10 @@ class Interp:
 
     def expr_Name(self, e, fr):
         n = e.id
+        if self.spec_mode and n in self.st.ghost and n in GHOST_VOCABULARY:
+            # the fixed ghost vocabulary of the contracts wins over a program local that happens to have the same name
+            # (a refactoring may call a local `emitted`)
+            return self.st.ghost[n]
         if n in fr.locals:
             return fr.locals[n]
         f = fr
@@ -1053,6 +1057,8 @@ class Interp:
                 if r is not None:
                     return r
             return VBound(obj, name)
+        if isinstance(obj, VElem) and 'attr_default' in self.spec_funcs and not self.spec_mode:
+            return self.spec_funcs['attr_default'](self, obj, name)
         if isinstance(obj, (VList, VSeq, VDict, VSet, VTuple, VMdEntry, VElem, VAw, VString, VStr)):
             return VBound(obj, name)
         if isinstance(obj, VBuiltin):
@@ -1356,6 +1362,16 @@ class Interp:
             return VElem(sym.f_add(a.t, self.as_elem(b)))
         if isinstance(op, ast.Mult) and isinstance(a, (VInt,)) and isinstance(b, VInt):
             return VInt(a.t * b.t)
+        if isinstance(op, ast.Mult) and isinstance(a, (VList, VSeq)) and isinstance(b, VInt):
+            nb = z3.simplify(b.t)
+            items = self.concrete_items(a)
+            if z3.is_int_value(nb) and items is not None:
+                out = list(items) * max(nb.as_long(), 0)
+                if not out:
+                    return self.st.new_list(None, None)
+                k = self.kind_of(out[0])
+                t = z3.Concat(*[z3.Unit(self.term_of(x, k)) for x in out]) if len(out) > 1 else z3.Unit(self.term_of(out[0], k))
+                return self.st.new_list(t, k)
         h = self.spec_funcs.get('binop_default')
         if h is not None:
             return h(self, op, a, b)
@@ -1459,6 +1475,14 @@ class Interp:
 
     # ------------------------------------------------------------ calls
     def expr_Call(self, e, fr):
+        if isinstance(e.func, ast.Name) and e.func.id == '__local__' and self.spec_mode:
+            n = e.args[0].value
+            f = fr
+            while f is not None:
+                if n in f.locals:
+                    return f.locals[n]
+                f = getattr(f, 'closure', None)
+            raise Unsupported('the local %s (renamed by the local-name alignment) is not bound here' % n)
         if isinstance(e.func, ast.Name) and e.func.id == 'old' and self.spec_mode:
             cur = self.st
             self.st = self.old_st
@@ -1728,6 +1752,8 @@ class Interp:
                 return h(self, recv, args, kwargs)
         if isinstance(recv, VMdEntry) and name == 'get':
             pass
+        if isinstance(recv, VElem) and 'call_default' in self.spec_funcs:
+            return self.spec_funcs['call_default'](self, 'method', name, recv, args, kwargs)
         raise Unsupported('method %s on %r' % (name, recv))
 
     def seq_index(self, recv, item):
@@ -1914,7 +1940,11 @@ class Interp:
             # the contract names locals as in the baseline source; the source under test may have renamed them.
             # `result` in a clause is the return value, not a local (in loop invariants it is the local)
             from .localmap import rename_spec
-            tree = rename_spec(tree, lm, keep=() if loop_text else ('result',))
+            # names of specification functions and ghosts are vocabulary of the contract, never program locals
+            keep = set(self.spec_funcs) | set(k for k in self.st.ghost if isinstance(k, str))
+            if not loop_text:
+                keep.add('result')
+            tree = rename_spec(tree, lm, keep=keep)
         saved = (self.old_st, getattr(self, 'old_frame', None))
         self.old_st = old_st
         self.old_frame = old_frame
@@ -2190,6 +2220,10 @@ def _b_deque(I, args, kwargs, fr):
         t, k = I.seq_term(v)
         return I.st.new_list(t, k, 'deque', ml)
     return I.st.new_list(None, None, 'deque', ml)
+
+
+GHOST_VOCABULARY = {'emitted', 'emitted_md', 'emit_rets', 'delta', 'sleeps', 'timers', 'cancelled', 'callbacks', 'notified', 'waits',
+                    'q_put', 'q_get', 'gathered', 'created', 'calls', 'rets'}
 
 
 def _is_coroutine_def(node):
